@@ -439,6 +439,23 @@ func (sc *c11Scenario) laws(s *simrt.Sim, add func(clause, fp, detail string)) {
 		if got != "f(<nil>)" || calls != 1 {
 			add("law", "left-identity-with-nil", fmt.Sprintf("Just(nil).FlatMap(f).Eval() = %v with f called %d times; f(nil).Eval() = f(<nil>)", got, calls))
 		}
+		for _, withHandlers := range []bool{false, true} {
+			nexts, gotNil := 0, false
+			mn := fpgo.MonadIO.Just(nil)
+			var hN *fpgo.HandlerDef
+			if withHandlers {
+				hN = fpgo.Handler.New()
+				mn.ObserveOn(hN).SubscribeOn(nil)
+			}
+			mn.Subscribe(fpgo.Subscription[interface{}]{OnNext: func(v interface{}) { nexts++; gotNil = v == nil }})
+			s.WaitUntilTimeout(func() bool { return nexts > 0 }, time.Minute)
+			if nexts != 1 || !gotNil {
+				add("once-per-evaluation", "Subscribe-of-a-nil-value", fmt.Sprintf("Just(nil).Subscribe (handlers: %v): OnNext called %d times (want once, with nil)", withHandlers, nexts))
+			}
+			if hN != nil {
+				hN.Close()
+			}
+		}
 		type box struct{ n int }
 		steps := 0
 		pm := fpgo.MonadIONewGenerics(func() *box { return nil }).
